@@ -1,6 +1,7 @@
 import Std.Data.HashMap
 import Votca.Base.Util
 import Driver.C18
+import Driver.C13
 /-! `votca_driver`: reads protocol lines `Cxx <op> <args…>` (implementation outputs included) on stdin,
 runs the executable model definitions (the ones the theorems are about) on the same inputs, prints
 `DISAGREE` / `PROPFAIL` lines for the cases that do not check and a `SUMMARY` at the end. -/
@@ -14,9 +15,13 @@ structure DAcc where
   printed : Nat := 0
   tags : Std.HashMap String Nat := {}
 
+def clip (s : String) : String := if s.length > 6000 then (s.take 6000).toString ++ " …" else s
+def clipMsg (s : String) : String := if s.length > 400 then (s.take 400).toString ++ " …" else s
+
 def dispatch (toks : List String) : Verdict :=
   match toks with
   | "C18" :: r => Driver.C18.handle r
+  | "C13" :: r => Driver.C13.handle r
   | _ => { agree := false, msg := "bad-line unknown property", tag := "bad" }
 
 partial def loop (h : IO.FS.Stream) (maxPrint : Nat) (acc : DAcc) : IO DAcc := do
@@ -29,12 +34,12 @@ partial def loop (h : IO.FS.Stream) (maxPrint : Nat) (acc : DAcc) : IO DAcc := d
   if v.agree then a := { a with agree := a.agree + 1 } else
     a := { a with disagree := a.disagree + 1 }
     if a.printed < maxPrint then
-      IO.println s!"DISAGREE n={a.total} {v.msg} :: {l}"
+      IO.println (clip s!"DISAGREE n={a.total} {clipMsg v.msg} :: {l}")
       a := { a with printed := a.printed + 1 }
   if !v.propOk then
     a := { a with propfail := a.propfail + 1 }
     if a.printed < maxPrint then
-      IO.println s!"PROPFAIL n={a.total} {v.msg} :: {l}"
+      IO.println (clip s!"PROPFAIL n={a.total} {clipMsg v.msg} :: {l}")
       a := { a with printed := a.printed + 1 }
   loop h maxPrint a
 
